@@ -1155,6 +1155,9 @@ func main() {
 		}
 	}
 	o.Hist["hpke/distinct-suites"] = len(suites)
+	if hlib.Thorough() {
+		e = &env{o: o, mutProb: 50} // the full ECIES grid is 2025 parameter sets
+	}
 
 	// ECIES: quick walks the (curve, hash, format, DEM) grid once with (salt, variant) cycling through
 	// all nine pairs; thorough walks the full grid including salts and variants.
